@@ -120,7 +120,7 @@ theorem step_invAnti (P : Params) (s : State) (i : Instr) (h : InvAnti s) : InvA
           · rw [primEvents_stack hev, hst]; exact ha
           · exact he ev hev
         · exact ⟨by simpa [halt, hst] using ha, he⟩
-      | call p tk rq t =>
+      | call p tk rq t sto =>
         simp only
         split
         · refine ⟨?_, ?_⟩
@@ -210,7 +210,7 @@ theorem step_invTop (P : Params) (k : EffKind) (s : State) (i : Instr) (hq : i.g
           · rw [hst] at hev; exact primEvents_top (hq p rfl) hhas hev hk
           · exact h ev hev hk
         · exact h
-      | call p tk rq t =>
+      | call p tk rq t sto =>
         simp only
         split
         · rename_i hc
@@ -294,7 +294,7 @@ theorem step_invSafe (P : Params) (hP : P.SafeDrops)
           · rw [primEvents_stack hev]; exact ha
           · exact he ev hev
         · exact ⟨ha, he⟩
-      | call p tk rq t =>
+      | call p tk rq t sto =>
         simp only
         split
         · refine ⟨?_, ?_⟩
@@ -334,12 +334,20 @@ theorem step_invSafe (P : Params) (hP : P.SafeDrops)
         · exact ⟨by intro g hg; simp at hg, he⟩
         · rw [hst] at ha; exact ⟨safeOk_tail ha, he⟩
 
-/-- Invariant 4: a recorded call to a non-safe method from a deployed context passed `canCall`. -/
+/-- Invariant 4: the manifest recorded as consulted for a call passed `canCall`. -/
 def InvPerm (s : State) : Prop :=
-  ∀ ev ∈ s.events, ∀ t, ev.target = some t → t.safe = false →
-    ∀ cur rest m, ev.stack = cur :: rest → cur.manifest = some m → m.canCall t.hash t.manifest t.method = true
+  ∀ ev ∈ s.events, ∀ t, ev.target = some t → ∀ m, ev.checked = some m → m.canCall t.hash t.manifest t.method = true
+
+/-- Invariant 4b: which manifest a recorded call consulted (`consulted`, call.go:95-106). -/
+def InvChecked (P : Params) (s : State) : Prop :=
+  ∀ ev ∈ s.events, ∀ t, ev.target = some t → ∀ cur rest, ev.stack = cur :: rest →
+    ∃ stored, ev.checked = consulted P cur t stored
 
 theorem primEvents_target {p : Prim} {st : List Frame} {ev : Event} (h : ev ∈ primEvents p st) : ev.target = Option.none := by
+  unfold primEvents at h
+  rcases List.mem_append.1 h with h | h <;> (split at h <;> simp at h; subst h; rfl)
+
+theorem primEvents_checked {p : Prim} {st : List Frame} {ev : Event} (h : ev ∈ primEvents p st) : ev.checked = Option.none := by
   unfold primEvents at h
   rcases List.mem_append.1 h with h | h <;> (split at h <;> simp at h; subst h; rfl)
 
@@ -359,21 +367,70 @@ theorem step_invPerm (P : Params) (s : State) (i : Instr) (h : InvPerm s) : InvP
           · rw [primEvents_target hev] at ht; cases ht
           · exact h ev hev t ht
         · exact h
-      | call p tk rq t =>
+      | call p tk rq t sto =>
         simp only
         split
         · rename_i hc
           simp only [Bool.and_eq_true] at hc
-          intro ev hev t' ht' hs c r m hstack hm
+          intro ev hev t' ht' m hm
+          rcases List.mem_cons.1 hev with rfl | hev
+          · simp only [Option.some.injEq] at ht'
+            subst ht'
+            simp only at hm
+            have := hc.2
+            simp only [permitted, hm] at this
+            exact this
+          · exact h ev hev t' ht' m hm
+        · exact h
+      | loadScript p rq =>
+        simp only
+        split
+        · intro ev hev t ht
+          rcases List.mem_cons.1 hev with rfl | hev
+          · cases ht
+          · exact h ev hev t ht
+        · exact h
+      | nativeCall p t =>
+        simp only
+        split
+        · intro ev hev t' ht
+          rcases List.mem_append.1 hev with hev | hev
+          · rw [primEvents_target hev] at ht; cases ht
+          · rcases List.mem_cons.1 hev with rfl | hev
+            · cases ht
+            · exact h ev hev t' ht
+        · exact h
+      | ret =>
+        simp only
+        split <;> exact h
+
+theorem step_invChecked (P : Params) (s : State) (i : Instr) (h : InvChecked P s) : InvChecked P (step P s i) := by
+  unfold step
+  split
+  · exact h
+  · split
+    · exact h
+    · rename_i cur rest hst
+      cases i with
+      | prim p =>
+        simp only
+        split
+        · intro ev hev t ht
+          rcases List.mem_append.1 hev with hev | hev
+          · rw [primEvents_target hev] at ht; cases ht
+          · exact h ev hev t ht
+        · exact h
+      | call p tk rq t sto =>
+        simp only
+        split
+        · intro ev hev t' ht' c r hstack
           rcases List.mem_cons.1 hev with rfl | hev
           · simp only [Option.some.injEq] at ht'
             subst ht'
             simp only [hst, List.cons.injEq] at hstack
             obtain ⟨rfl, rfl⟩ := hstack
-            have := hc.2
-            simp [permitted, hs, hm] at this
-            exact this
-          · exact h ev hev t' ht' hs c r m hstack hm
+            exact ⟨sto, rfl⟩
+          · exact h ev hev t' ht' c r hstack
         · exact h
       | loadScript p rq =>
         simp only
@@ -426,7 +483,7 @@ theorem step_invRoot (P : Params) (f0 : CallFlags) (s : State) (i : Instr) (h : 
           · rw [primEvents_stack hev]; exact ha
           · exact he ev hev
         · exact ⟨ha, he⟩
-      | call p tk rq t =>
+      | call p tk rq t sto =>
         simp only
         split
         · refine ⟨push _ (childFlags_le _ _ _ _ _), ?_⟩
@@ -448,6 +505,86 @@ theorem step_invRoot (P : Params) (f0 : CallFlags) (s : State) (i : Instr) (h : 
         simp only
         split
         · refine ⟨push _ (inter_le_left _ _), ?_⟩
+          intro ev hev
+          rcases List.mem_append.1 hev with hev | hev
+          · rw [primEvents_stack hev]; exact ha
+          · rcases List.mem_cons.1 hev with rfl | hev
+            · exact ha
+            · exact he ev hev
+        · exact ⟨ha, he⟩
+      | ret =>
+        simp only
+        split
+        · exact ⟨by intro g hg; simp at hg, he⟩
+        · exact ⟨fun g hg => ha g (by rw [hst]; exact List.mem_cons_of_mem _ hg), he⟩
+
+
+/-! ## Paths: how a context was created, what was requested -/
+
+/-- Invariant 6: every context holds at most the flags its creator requested; the `viaSafe` mark is exactly
+"created through callInternal (System.Contract.Call or CALLT) for a method marked safe"; a dynamic script runs no
+manifest method (nor does the entry script). -/
+def FrameOk (g : Frame) : Prop :=
+  g.flags ≤ g.requested ∧ (g.viaSafe = (g.safeTarget && (g.via == .call || g.via == .token))) ∧
+  ((g.via = .script ∨ g.via = .entry) → g.safeTarget = false)
+
+def InvVia (s : State) : Prop := (∀ g ∈ s.stack, FrameOk g) ∧ ∀ ev ∈ s.events, ∀ g ∈ ev.stack, FrameOk g
+
+theorem inter_minus_le (cur rq d : CallFlags) : cur.inter (rq.minus d) ≤ rq := by
+  cases cur; cases rq; cases d; simp [le_def, has, inter, minus]; grind
+
+theorem childFlags_le_requested (P : Params) (tk : Bool) (cur rq : CallFlags) (safe : Bool) :
+    childFlags P tk cur rq safe ≤ rq := by
+  unfold childFlags
+  cases safe
+  · exact inter_le_right _ _
+  · exact inter_minus_le _ _ _
+
+theorem step_invVia (P : Params) (s : State) (i : Instr) (h : InvVia s) : InvVia (step P s i) := by
+  obtain ⟨ha, he⟩ := h
+  have push : ∀ child : Frame, FrameOk child → ∀ g ∈ child :: s.stack, FrameOk g := by
+    intro child hc g hg
+    rcases List.mem_cons.1 hg with rfl | hg
+    · exact hc
+    · exact ha g hg
+  unfold step
+  split
+  · exact ⟨ha, he⟩
+  · split
+    · exact ⟨ha, he⟩
+    · rename_i cur rest hst
+      cases i with
+      | prim p =>
+        simp only
+        split
+        · refine ⟨ha, ?_⟩
+          intro ev hev
+          rcases List.mem_append.1 hev with hev | hev
+          · rw [primEvents_stack hev]; exact ha
+          · exact he ev hev
+        · exact ⟨ha, he⟩
+      | call p tk rq t sto =>
+        simp only
+        split
+        · refine ⟨push _ ⟨childFlags_le_requested _ _ _ _ _, by cases tk <;> simp, by cases tk <;> simp⟩, ?_⟩
+          intro ev hev
+          rcases List.mem_cons.1 hev with rfl | hev
+          · exact ha
+          · exact he ev hev
+        · exact ⟨ha, he⟩
+      | loadScript p rq =>
+        simp only
+        split
+        · refine ⟨push _ ⟨inter_le_right _ _, by simp, by simp⟩, ?_⟩
+          intro ev hev
+          rcases List.mem_cons.1 hev with rfl | hev
+          · exact ha
+          · exact he ev hev
+        · exact ⟨ha, he⟩
+      | nativeCall p t =>
+        simp only
+        split
+        · refine ⟨push _ ⟨inter_le_right _ _, by simp, by simp⟩, ?_⟩
           intro ev hev
           rcases List.mem_append.1 hev with hev | hev
           · rw [primEvents_stack hev]; exact ha
